@@ -9,6 +9,7 @@ FUNCTIONS = [
     "batchie.distance_calculation.ChunkedDistanceMatrix.__init__/add_value/is_complete/to_dense/save/load/combine/concat/_expand_storage",
     "batchie.distance_calculation.calculate_pairwise_distance_matrix_on_predictions",
     "batchie.distance.mse.MSEDistance.distance",
+    "batchie.cli.calculate_distance_matrix.main (argument parser stubbed)",
 ]
 BOUNDS = {
     "quick": "chunk arithmetic: all n>=0, n_chunks>=1, chunk_index (unbounded integers; islice/generator replaced by an exact abstract-sequence model); "
@@ -44,6 +45,9 @@ def configs(tier, seed):
     for sig in (True, False):
         out.append(dict(name="metric sigmoid=%s" % sig, h="metric", sigmoid=sig, n=3 if q else 4))
     out.append(dict(name="bounds-guards", h="guards"))
+    out.append(dict(name="cli nt=3", h="cli", nt=3, kmax=4))
+    if not q:
+        out.append(dict(name="cli nt=4", h="cli", nt=4, kmax=7))
     return out
 
 
@@ -60,6 +64,8 @@ def fixtures(cfg):
         return [{"a0": 0.5, "a1": -1.0, "a2": 2.0, "b0": 0.25, "b1": 0.0, "b2": -3.0, "a3": 1.0, "b3": 1.0}]
     if cfg["h"] == "arith":
         return [dict(n=10, k=3, c=1), dict(n=0, k=2, c=1), dict(n=5, k=12, c=11), dict(n=10, k=10, c=9)]
+    if cfg["h"] == "cli":
+        return [dict(k=2, order0=1, p0_0=0.1, p1_0=-0.3, p2_0=0.7, p3_0=0.2), dict(k=4, order0=2, p0_0=0.5, p1_0=0.5, p2_0=-0.1, p3_0=0.0)]
     if cfg["h"] == "arith_pair":
         return [dict(n=10, k=3, c=1), dict(n=4, k=9, c=7)]
     return [dict()]
@@ -370,6 +376,50 @@ def extra(tier, seed, deadline):
     return dict(inconclusive=inc, coverage=dict(crosshair_cross_check={k: v for k, v in ch.items() if k != "raw"}))
 
 
+def h_cli(ctx, cfg):
+    """the command-line step: per-chunk files written by calculate_distance_matrix assemble, in any order, to the
+    matrix of MSE distances between the samples' viability predictions"""
+    import argparse
+    from .common import cli_main, concrete_screen
+    np = ctx.np
+    dc = ctx.mod("batchie.distance_calculation")
+    core = ctx.mod("batchie.core")
+    sc = ctx.mod("batchie.models.sparse_combo")
+    mse = ctx.mod("batchie.distance.mse")
+    nt = cfg["nt"]
+    rows = [("s1", "a", 1.0, "b", 1.0, "p"), ("s2", "a", 1.0, "", 0.0, "p"), ("s1", "b", 2.0, "a", 1.0, "q")]
+    screen = concrete_screen(ctx, rows)
+    sfn = ctx.tmp("screen.h5")
+    screen.save_h5(sfn)
+    nS, nT = screen.sample_space_size, screen.treatment_space_size
+    holder = core.ThetaHolder(n_thetas=nt)
+    alphas = [ctx.real("p%d_0" % t) for t in range(nt)]
+    for t in range(nt):
+        holder.add_theta(sc.SparseDrugComboMCMCSample(
+            W=np.array([[0.1 * (t + 1)]] * nS, dtype=float), W0=np.array([0.05 * s for s in range(nS)], dtype=float),
+            V2=np.array([[0.2 + 0.1 * k] for k in range(nT)], dtype=float), V1=np.array([[0.3 - 0.1 * k] for k in range(nT)], dtype=float),
+            V0=np.array([0.0] * nT, dtype=float), alpha=alphas[t], precision=1.0))
+    tfn = ctx.tmp("thetas.h5")
+    holder.save_h5(tfn)
+    k = int(ctx.int("k", 1, cfg["kmax"]))
+    files = []
+    for c in range(k):
+        out = ctx.tmp("dist_%d.h5" % c)
+        cli_main(ctx, "batchie.cli.calculate_distance_matrix", data=sfn, thetas=[tfn], metric_cls=mse.MSEDistance, metric_params={},
+                 distance_metric="MSEDistance", n_chunks=k, chunk_index=c, output=out)
+        files.append(out)
+    rot = int(ctx.int("order0", 0, k - 1))
+    seq = [(i + rot) % k for i in range(k)][::-1]
+    dense = dc.ChunkedDistanceMatrix.concat([dc.ChunkedDistanceMatrix.load(files[c]) for c in seq]).to_dense().tolist()
+    metric = mse.MSEDistance()
+    preds = [holder.get_theta(t).predict_viability(screen) for t in range(nt)]
+    for i in range(nt):
+        for j in range(nt):
+            want = 0.0 if i == j else metric.distance(preds[i], preds[j])
+            ctx.prove(ctx.eq(dense[i][j], want), "command-line chunks assemble to the metric of the two samples' viability predictions")
+    return seq
+
+
 def run(ctx, cfg):
-    return {"arith": h_arith, "arith_pair": h_arith_pair, "pipeline": h_pipeline, "assemble": h_assemble,
+    return {"cli": h_cli, "arith": h_arith, "arith_pair": h_arith_pair, "pipeline": h_pipeline, "assemble": h_assemble,
             "incomplete": h_incomplete, "metric": h_metric, "guards": h_guards}[cfg["h"]](ctx, cfg)
